@@ -174,7 +174,7 @@ func c15Shadow(seed uint64, n int, b []bool) (recv []ot.Label, x, t0, t1, seed2 
 func init() {
 	vrt.Register(&vrt.Prop{
 		ID: "C15", Level: "fault_enumeration",
-		Rule: "every trial is a fresh IKNPSender.Send(n,true)/IKNPReceiver.Receive over an ideal base OT with monitor-chosen Delta; an honest run first (must not abort; its receiver outputs and (x,t0,t1) are recomputed by an independent shadow receiver with its own carry-less multiplier), " +
+		Rule: "every seventh sampled case is a strictly causal adaptive tamperer over two batches on one instance (row set with zero predicted challenge sum, computed from the previous batch's seed; see c15causal.go); every other trial is a fresh IKNPSender.Send(n,true)/IKNPReceiver.Receive over an ideal base OT with monitor-chosen Delta; an honest run first (must not abort; its receiver outputs and (x,t0,t1) are recomputed by an independent shadow receiver with its own carry-less multiplier), " +
 			"then one run per fault: a single bit flip at a (column,row) of the payload or check matrix, double flips in a column, whole-column and whole-row flips, k-subsets, single bit flips of seed/x/t0/t1, single flips at every (thorough) or 128 sampled rows of batches of 600-2100 (several payload chunks and challenge blocks); paired flips of one (column,row) in a payload chunk and the check matrix or in two payload chunks; also COT-level trials. " +
 			"Oracle: sender error, or correlation intact for the receiver's original choices. Non-trivial = the fault hit a column selected by Delta and a row that is used; distinct = (n, fault positions).",
 		Assumptions: []string{"faults are bit flips in transit (not an adaptive adversary)", "ideal base OT (harness code)"},
@@ -210,6 +210,10 @@ func runC15(cs *vrt.Case) {
 func runC15One(cs *vrt.Case) {
 	r := cs.Rng
 	th := cs.Thorough()
+	if cs.Idx%7 == 6 && (th && cs.Idx >= 80 || !th && cs.Idx >= 16) {
+		c15Causal(cs, r)
+		return
+	}
 	var kind, part, parts int
 	switch {
 	case th && cs.Idx < 16:
